@@ -315,7 +315,10 @@ Definition step (fx : fixes) (s : state) (a : action) : option state :=
           match nth_error (conns s) c with
           | Some k =>
               if lopen k && popen k then None
-              else Some (set_senders s (upd (senders s) t (if retry then NDone Err else NDial p true)))
+              else (* a Send that fails closes the connection itself (TCPConn.Send since e91db58;
+                      in memory a Send fails only on a connection already closed on this side) *)
+                   Some (set_senders (set_conns s (upd (conns s) c (close_conn k)))
+                                     (upd (senders s) t (if retry then NDone Err else NDial p true)))
           | None => None
           end
       | _ => None
